@@ -34,6 +34,16 @@ pub enum Item {
     Group,
     /// `sink hK <<EOF` + lines
     HereDoc(Vec<String>),
+    /// `sink hK <<EOF; pos P` (then = 0) or `sink hK <<EOF; read rA` + a data line after the
+    /// delimiter (then = 1; stdin modes): when the second command runs, the input has been read up
+    /// to and including the delimiter line, and no further
+    HereDocThen { lines: Vec<String>, then: u8 },
+    /// the `portable` option decides how the following lines are parsed (a function name with a
+    /// hyphen is a syntax error while it is on): 0 `set -o portable`, 1 `set +o portable`,
+    /// 2 `fn-h() { mark N; }` + `fn-h`, 3 an alias whose two-line value turns the option on and
+    /// then defines `fn-h` (the second line is parsed under the new setting: syntax error),
+    /// 4 an alias whose value turns it off, defines and calls `fn-h`
+    Portable(u8),
     /// multi-line function definition, then a call
     Func,
     /// `mark \` + newline + `N`
@@ -148,6 +158,7 @@ fn build(c: &InputCase, stdin_mode: bool) -> Built {
     let mut error_with_prior = false;
     let mut vars: std::collections::BTreeMap<String, String> = Default::default();
     let mut nsink = 0;
+    let mut portable = false;
     let err_pos = c.error.map(|(p, k)| (p as usize % (c.items.len() + 1), k));
     let uses_semi_alias = c.items.iter().any(|i| matches!(i, Item::SemiAlias(_)));
     if uses_semi_alias {
@@ -326,6 +337,79 @@ fn build(c: &InputCase, stdin_mode: bool) -> Built {
                     sinks.push((tag, body));
                     status = Sym::Known(0);
                     classes.push("here-document");
+                }
+            }
+            Item::HereDocThen { lines, then } => {
+                nsink += 1;
+                let tag = format!("h{nsink}");
+                let body: String = lines.iter().map(|l| format!("{l}\n")).collect();
+                let reads = *then % 2 == 1 && stdin_mode;
+                if reads {
+                    text.push_str(&format!("sink {tag} <<EOF; read rA\n{body}EOF\nafter {tag}\n"));
+                } else {
+                    text.push_str(&format!("sink {tag} <<EOF; pos q{i}\n{body}EOF\n"));
+                }
+                if live {
+                    sinks.push((tag.clone(), body));
+                    classes.push("here-document-then-reader-on-the-same-line");
+                    if reads {
+                        has_read = true;
+                        vars.insert("rA".into(), format!("after {tag}"));
+                        status = Sym::Known(0);
+                    } else {
+                        let off = if stdin_mode { fed_bytes(&text, true).len().to_string() } else { "*".to_string() };
+                        trace.push((vec!["pos".into(), off, format!("q{i}"), "nb=0".into()], Sym::Known(0)));
+                        status = Sym::Known(0);
+                    }
+                }
+            }
+            Item::Portable(k) => {
+                let a = next_mark;
+                match *k % 5 {
+                    0 | 1 => {
+                        text.push_str(if *k % 5 == 0 { "set -o portable\n" } else { "set +o portable\n" });
+                        if live {
+                            portable = *k % 5 == 0;
+                            status = Sym::Known(0);
+                            classes.push("option-change-governs-later-lines");
+                        }
+                    }
+                    2 => {
+                        next_mark += 1;
+                        text.push_str(&format!("fn-h() {{ mark {a}; }}\nfn-h\n"));
+                        if live {
+                            if portable {
+                                aborted = true;
+                                status = Sym::NonZero;
+                                error_with_prior = !trace.is_empty();
+                                classes.push("syntax-error-because-of-an-option-set-earlier");
+                            } else {
+                                trace.push((vec![a.to_string()], Sym::Known(0)));
+                                status = Sym::Known(0);
+                            }
+                        }
+                    }
+                    3 => {
+                        next_mark += 1;
+                        text.push_str(&format!("alias zp='set -o portable\nfn-h() {{ mark {a}; }}'\nzp\n"));
+                        if live {
+                            portable = true;
+                            aborted = true;
+                            status = Sym::NonZero;
+                            error_with_prior = !trace.is_empty();
+                            classes.push("option-changed-by-the-first-line-of-an-alias-value");
+                        }
+                    }
+                    _ => {
+                        next_mark += 1;
+                        text.push_str(&format!("alias zq='set +o portable\nfn-h() {{ mark {a}; }}\nfn-h'\nzq\n"));
+                        if live {
+                            portable = false;
+                            trace.push((vec![a.to_string()], Sym::Known(0)));
+                            status = Sym::Known(0);
+                            classes.push("option-changed-by-the-first-line-of-an-alias-value");
+                        }
+                    }
                 }
             }
             Item::Func => {
@@ -621,6 +705,9 @@ fn arb_item() -> impl Strategy<Value = Item> {
         1 => Just(Item::Group),
         1 => Just(Item::For),
         2 => prop::collection::vec(prop_oneof![Just("mark 9600".to_string()), Just("x y".to_string()), Just("".to_string()), Just("EOF2".to_string())], 0..3).prop_map(Item::HereDoc),
+        2 => (prop::collection::vec(prop_oneof![Just("mark 9700".to_string()), Just("x y".to_string()), Just("".to_string())], 0..3), 0u8..2)
+            .prop_map(|(lines, then)| Item::HereDocThen { lines, then }),
+        3 => (0u8..5).prop_map(Item::Portable),
         1 => Just(Item::Func),
         1 => Just(Item::Continuation),
         1 => Just(Item::Eval),
